@@ -40,7 +40,9 @@ typedef unsigned __int128 u128;
 #define TICK_NS ((u128)FIBER_TIME_RESOLUTION_MS * 1000000u)
 
 /* ------------------------------------------------------------------ environment stubs */
-#define MAXF 3
+#ifndef MAXF
+#define MAXF 3 /* number of fibers / concurrent sleepers */
+#endif
 static fiber_manager_t the_manager;
 static fiber_scheduler_t dummy_scheduler_obj;   /* only passed through to the stub */
 static fiber_t fibers[MAXF];
@@ -61,6 +63,8 @@ static int lock_is_free(void) {
 static int lifetime_mode;
 static waiter_el_t* life_node[MAXF];
 static _Bool life_dead[MAXF];
+static fiber_t trap_fiber;                                           /* never registered as a sleeper */
+static waiter_el_t trap_node = {0, &trap_fiber, NULL, NULL, NULL};   /* what a reused stack slot may hold */
 
 void fiber_scheduler_schedule(fiber_scheduler_t* sched, fiber_t* f) {
   (void)sched;
@@ -74,6 +78,8 @@ void fiber_scheduler_schedule(fiber_scheduler_t* sched, fiber_t* f) {
         /* the fiber is picked up by another thread right now, returns from fiber_sleep and its
          * frame is gone (and reused): its node is dead */
         life_dead[i] = 1;
+        life_node[i]->wake_time = nondet_u64();
+        life_node[i]->next = nondet_bool() ? &trap_node : (waiter_el_t*)0;
         free(life_node[i]);
       }
     }
@@ -97,7 +103,11 @@ void* fiber_load_symbol(const char* symbol) {
  * does, then "the world runs": the scenario hook below plays the timer / poller and calls the REAL
  * fiber_event_wake_sleepers while the sleeper's frame is still alive. */
 static unsigned yield_calls;
-static void (*yield_hook)(fiber_manager_t*);
+/* scenario selector (a plain constant per harness, so symbolic execution explores only that hook) */
+enum { HOOK_NONE = 0, HOOK_SINGLE = 1, HOOK_MULTI = 2 };
+static int yield_hook;
+static void hook_single_sleeper(fiber_manager_t* m);
+static void hook_multi(fiber_manager_t* m);
 
 void fiber_manager_yield(fiber_manager_t* manager) {
   yield_calls++;
@@ -106,7 +116,8 @@ void fiber_manager_yield(fiber_manager_t* manager) {
     manager->spinlock_to_unlock = NULL;
     fiber_spinlock_unlock(to_unlock);
   }
-  if (yield_hook) yield_hook(manager);
+  if (yield_hook == HOOK_SINGLE) hook_single_sleeper(manager);
+  else if (yield_hook == HOOK_MULTI) hook_multi(manager);
 }
 
 static void env_init(uint64_t ttc0) {
@@ -137,6 +148,8 @@ static uint64_t g_ttc0;      /* ttc at the moment of the call */
 static u128 g_requested_ns;  /* requested duration in ns (ghost, exact) */
 static uint64_t g_pending;   /* expirations fired before the call but not yet added to ttc */
 static int g_hook_ran;
+enum { CLAIM_FITS = 0, CLAIM_ALL_DURATIONS = 1, CLAIM_PENDING = 2 };
+static int g_claim;
 
 static void hook_single_sleeper(fiber_manager_t* m) {
   g_hook_ran = 1;
@@ -167,8 +180,16 @@ static void hook_single_sleeper(fiber_manager_t* m) {
   if (woken) {
     /* real time at which the n-th post-call expiration fired (n == 0: no time has passed at all) */
     const u128 now_ns = n == 0 ? (u128)0 : (u128)phase_ns + (u128)(n - 1) * TICK_NS;
-    __CPROVER_assert(now_ns >= g_requested_ns,
-                     "sleeper is never resumed before the requested duration has elapsed (any tick phase)");
+    /* one claim, three scopes (separate description strings so that findings can be told apart) */
+    if (g_claim == CLAIM_FITS)
+      __CPROVER_assert(now_ns >= g_requested_ns,
+                       "sleeper is never resumed before the requested duration has elapsed (any tick phase, durations whose ms count fits 32 bits, poller up to date)");
+    else if (g_claim == CLAIM_ALL_DURATIONS)
+      __CPROVER_assert(now_ns >= g_requested_ns,
+                       "sleeper is never resumed before the requested duration has elapsed for ALL argument values (32-bit wrap of seconds*1000 / truncation of tv_sec)");
+    else
+      __CPROVER_assert(now_ns >= g_requested_ns,
+                       "sleeper is never resumed before the requested duration has elapsed when timer expirations were pending (unread) at the call");
   }
   __CPROVER_assert(woken <= 1 && woken_after_b1 <= woken, "one sleeper is handed to the scheduler at most once");
   __CPROVER_assert(sched_foreign == 0 && sched_not_ready == 0,
@@ -187,13 +208,14 @@ static int sleep_ms_fits(uint64_t seconds, uint64_t useconds) {
   return seconds * 1000u + useconds / 1000u + 1u <= (uint64_t)UINT32_MAX;
 }
 
-static void run_fiber_sleep(uint32_t seconds, uint32_t useconds, uint64_t pending) {
+static void run_fiber_sleep(uint32_t seconds, uint32_t useconds, uint64_t pending, int claim) {
+  g_claim = claim;
   g_ttc0 = nondet_u64();
   env_init(g_ttc0);
   g_pending = pending;
   g_requested_ns = ((u128)seconds * 1000000u + (u128)useconds) * 1000u;
   g_hook_ran = 0;
-  yield_hook = hook_single_sleeper;
+  yield_hook = HOOK_SINGLE;
   int r = fiber_sleep(seconds, useconds); /* REAL */
   __CPROVER_assert(r == FIBER_SUCCESS, "fiber_sleep returns FIBER_SUCCESS");
   __CPROVER_assert(yield_calls == 1 && g_hook_ran, "fiber_sleep suspends the caller exactly once");
@@ -203,14 +225,14 @@ static void run_fiber_sleep(uint32_t seconds, uint32_t useconds, uint64_t pendin
 void h_sleep_never_early(void) {
   uint32_t seconds = nondet_u32(), useconds = nondet_u32();
   __CPROVER_assume(sleep_ms_fits(seconds, useconds));
-  run_fiber_sleep(seconds, useconds, 0);
+  run_fiber_sleep(seconds, useconds, 0, CLAIM_FITS);
   WITNESS_END();
 }
 
 /* ALL uint32 durations (suspected: seconds*1000 wraps in 32-bit arithmetic) */
 void h_sleep_never_early_all_durations(void) {
   uint32_t seconds = nondet_u32(), useconds = nondet_u32();
-  run_fiber_sleep(seconds, useconds, 0);
+  run_fiber_sleep(seconds, useconds, 0, CLAIM_ALL_DURATIONS);
   WITNESS_END();
 }
 
@@ -221,7 +243,7 @@ void h_sleep_never_early_pending_ticks(void) {
   __CPROVER_assume(sleep_ms_fits(seconds, useconds));
   uint64_t pending = nondet_u64();
   __CPROVER_assume(pending <= 1000);
-  run_fiber_sleep(seconds, useconds, pending);
+  run_fiber_sleep(seconds, useconds, pending, CLAIM_PENDING);
   WITNESS_END();
 }
 
@@ -234,9 +256,14 @@ void h_shim_sleep(void) {
   g_ttc0 = nondet_u64();
   env_init(g_ttc0);
   g_pending = 0;
+#ifdef ALL_DURATIONS
+  g_claim = CLAIM_ALL_DURATIONS;
+#else
+  g_claim = CLAIM_FITS;
+#endif
   g_requested_ns = (u128)seconds * 1000000000u;
   g_hook_ran = 0;
-  yield_hook = hook_single_sleeper;
+  yield_hook = HOOK_SINGLE;
   unsigned int r = sleep(seconds); /* REAL shim -> REAL fiber_sleep */
   __CPROVER_assert(r == 0, "sleep() reports no remaining time");
   __CPROVER_assert(yield_calls == 1 && g_hook_ran, "sleep() suspends the calling fiber exactly once");
@@ -248,33 +275,45 @@ void h_shim_usleep(void) {
   g_ttc0 = nondet_u64();
   env_init(g_ttc0);
   g_pending = 0;
+  g_claim = CLAIM_FITS; /* usleep: seconds <= 4294, nothing can wrap */
   g_requested_ns = (u128)us * 1000u;
   g_hook_ran = 0;
-  yield_hook = hook_single_sleeper;
+  yield_hook = HOOK_SINGLE;
   int r = usleep(us); /* REAL shim */
   __CPROVER_assert(r == 0, "usleep() returns 0");
   __CPROVER_assert(yield_calls == 1 && g_hook_ran, "usleep() suspends the calling fiber exactly once");
   WITNESS_END();
 }
 
+/* variants: default = nothing wraps; -DALL_DURATIONS = tv_sec <= UINT32_MAX (lossless conversion) but the
+ * 32-bit ms expression may wrap; -DTVSEC_UNBOUNDED = tv_sec >= 2^32 (conversion to uint32_t seconds
+ * truncates) while the truncated call itself does not wrap */
 void h_shim_nanosleep(void) {
   struct timespec req, rem;
   req.tv_sec = nondet_long();
   req.tv_nsec = nondet_long();
   /* documented precondition of nanosleep (otherwise EINVAL) */
   __CPROVER_assume(req.tv_sec >= 0 && req.tv_nsec >= 0 && req.tv_nsec <= 999999999L);
-#ifndef ALL_DURATIONS
-  /* the conversion to (uint32 seconds, uint32 useconds) and the 32-bit ms expression do not wrap */
-  __CPROVER_assume(req.tv_sec <= (long)UINT32_MAX &&
-                   sleep_ms_fits((uint64_t)req.tv_sec, (uint64_t)req.tv_nsec / 1000u + 1u));
+  const uint64_t us_arg = (uint64_t)req.tv_nsec / 1000u + 1u;
+#if defined(TVSEC_UNBOUNDED)
+  __CPROVER_assume(req.tv_sec > (long)UINT32_MAX && sleep_ms_fits((uint32_t)req.tv_sec, us_arg));
+#elif defined(ALL_DURATIONS)
+  __CPROVER_assume(req.tv_sec <= (long)UINT32_MAX);
+#else
+  __CPROVER_assume(req.tv_sec <= (long)UINT32_MAX && sleep_ms_fits((uint64_t)req.tv_sec, us_arg));
 #endif
   _Bool with_rem = nondet_bool();
   g_ttc0 = nondet_u64();
   env_init(g_ttc0);
   g_pending = 0;
+#if defined(TVSEC_UNBOUNDED) || defined(ALL_DURATIONS)
+  g_claim = CLAIM_ALL_DURATIONS;
+#else
+  g_claim = CLAIM_FITS;
+#endif
   g_requested_ns = (u128)(uint64_t)req.tv_sec * 1000000000u + (u128)(uint64_t)req.tv_nsec;
   g_hook_ran = 0;
-  yield_hook = hook_single_sleeper;
+  yield_hook = HOOK_SINGLE;
   int r = nanosleep(&req, with_rem ? &rem : (struct timespec*)0); /* REAL shim */
   __CPROVER_assert(r == 0, "nanosleep() returns 0");
   if (with_rem) __CPROVER_assert(rem.tv_sec == 0 && rem.tv_nsec == 0, "nanosleep() reports no remaining time");
@@ -449,10 +488,11 @@ static uint64_t w_sleep_ticks(int i) { /* oracle: ticks fiber_sleep adds (no-wra
 }
 
 static void hook_multi(fiber_manager_t* m) {
+  unsigned before[MAXF];
+#ifdef W_BETWEEN
   /* ticks may be accounted between two registrations */
   uint64_t between = nondet_u64();
   __CPROVER_assume(between <= 8);
-  unsigned before[MAXF];
   for (int i = 0; i < MAXF; ++i) before[i] = sched_calls[i];
   fiber_event_wake_sleepers(m, between); /* REAL */
   for (int i = 0; i < MAXF; ++i) {
@@ -461,7 +501,8 @@ static void hook_multi(fiber_manager_t* m) {
     __CPROVER_assert(sched_calls[i] == before[i] + (due ? 1u : 0u),
                      "each due sleeper is scheduled exactly once, sleepers not yet due are not scheduled");
   }
-  if (w_level + 1 < w_count) {
+#endif
+  if (w_level + 1 < MAXF && w_level + 1 < w_count) { /* first conjunct is concrete: bounds the nesting for symex */
     w_level++;
     m->current_fiber = &fibers[w_level];
     w_ttc_at_call[w_level] = timer_trigger_count;
@@ -471,7 +512,7 @@ static void hook_multi(fiber_manager_t* m) {
   /* all registered: two more batches */
   for (int round = 0; round < 2; ++round) {
     uint64_t n = nondet_u64();
-    __CPROVER_assume(n < ((uint64_t)1 << 40));
+    __CPROVER_assume(n <= 16);
     for (int i = 0; i < MAXF; ++i) before[i] = sched_calls[i];
     fiber_event_wake_sleepers(m, n); /* REAL */
     for (int i = 0; i < MAXF; ++i) {
@@ -494,13 +535,15 @@ void h_wake_once(void) {
   w_count = nondet_int();
   __CPROVER_assume(w_count >= 1 && w_count <= MAXF);
   for (int i = 0; i < MAXF; ++i) {
-    w_sec[i] = nondet_u32();
+    /* bound: short sleeps (1..8 ticks) so that deadlines collide and interleave with the batches below;
+     * the duration arithmetic for all uint32 arguments is h_sleep_never_early's job */
+    w_sec[i] = 0;
     w_usec[i] = nondet_u32();
-    __CPROVER_assume(sleep_ms_fits(w_sec[i], w_usec[i]));
+    __CPROVER_assume(w_usec[i] <= 7999);
   }
   w_level = 0;
   w_done = 0;
-  yield_hook = hook_multi;
+  yield_hook = HOOK_MULTI;
   w_ttc_at_call[0] = timer_trigger_count;
   fiber_sleep(w_sec[0], w_usec[0]); /* REAL */
   __CPROVER_assert(w_done, "all sleepers registered and the timer scenario ran");
